@@ -171,3 +171,62 @@ M("c05-heuristic-extra-bend", "C05", "cola/libavoid/makepath.cpp",
   mention=["HEURISTIC-FORM"])
 M("c05-polyline-heuristic-inflated", "C05", "cola/libavoid/makepath.cpp",
   "        return euclideanDist(curr, costTarPoint);", "        return 1.0001 * euclideanDist(curr, costTarPoint);", mention=["HEURISTIC-FORM", "PolyLine"])
+
+# ---------------------------------------------------------------- C03
+M("c03-checkvis-no-blocker-test", "C03", "cola/libavoid/graph.cpp",
+  "    if (cone1 && cone2 && ((blocker = firstBlocker()) == 0))", "    if (cone1 && cone2 && (m_router->IgnoreRegions || ((blocker = firstBlocker()) == 0)))",
+  mention=["VIS-GUARD", "checkVis"])
+M("c03-checkvis-cone-or", "C03", "cola/libavoid/graph.cpp",
+  "    if (cone1 && cone2 && ((blocker = firstBlocker()) == 0))", "    if ((cone1 || cone2) && ((blocker = firstBlocker()) == 0))",
+  mention=["VIS-GUARD", "checkVis"])
+M("c03-cone-wrong-vertex", "C03", "cola/libavoid/graph.cpp",
+  "            cone2 = inValidRegion(m_router->IgnoreRegions, j->shPrev->point,\n                    jPoint, j->shNext->point, iPoint);",
+  "            cone2 = inValidRegion(m_router->IgnoreRegions, i->shPrev->point,\n                    jPoint, j->shNext->point, iPoint);",
+  mention=["VIS-GUARD"])
+M("c03-sweep-visible-ignored", "C03", "cola/libavoid/visibility.cpp",
+  "            if (currVisible)\n            {\n                db_printf(\"\\tSetting visibility edge... \\n\\t\\t\");",
+  "            if (currVisible || centerID.isConnPt())\n            {\n                db_printf(\"\\tSetting visibility edge... \\n\\t\\t\");",
+  mention=["VIS-GUARD", "vertexSweep"])
+M("c03-new-setdist-caller", "C03", "cola/libavoid/router.cpp",
+  "        else if (tmp->blocker() == pid)\n        {\n            tmp->checkVis();", "        else if (tmp->blocker() == pid)\n        {\n            tmp->setDist(1.0);",
+  mention=["SETDIST-CALLERS"])
+M("c03-blocking-skips-last-side", "C03", "cola/libavoid/router.cpp",
+  "            for (size_t pt_i = 0; pt_i < poly.size(); ++pt_i)\n            {\n                size_t pt_n = (pt_i == (poly.size() - 1)) ? 0 : pt_i + 1;\n                const Point& pi = poly.ps[pt_i];\n                const Point& pn = poly.ps[pt_n];\n                if (segmentShapeIntersect(e1, e2, pi, pn, ",
+  "            for (size_t pt_i = 0; pt_i + 1 < poly.size(); ++pt_i)\n            {\n                size_t pt_n = (pt_i == (poly.size() - 1)) ? 0 : pt_i + 1;\n                const Point& pi = poly.ps[pt_i];\n                const Point& pn = poly.ps[pt_n];\n                if (segmentShapeIntersect(e1, e2, pi, pn, ",
+  mention=["BLOCKING-SCAN"])
+M("c03-firstblocker-skip-conn", "C03", "cola/libavoid/graph.cpp",
+  "        if (k->id == dummyOrthogID)\n        {", "        if ((k->id == dummyOrthogID) || (k->shPrev == k->shNext))\n        {",
+  mention=["FIRSTBLOCKER-SCAN"])
+M("c03-firstblocker-no-reset", "C03", "cola/libavoid/graph.cpp",
+  "            seenIntersectionAtEndpoint = false;\n            lastId = kID.objID;", "            lastId = kID.objID;", mention=["FIRSTBLOCKER-SCAN"])
+M("c03-fallback-unconditional", "C03", "cola/libavoid/connector.cpp",
+  "    if (pathlen < 2)\n    {\n        // There is no valid path.\n        db_printf(\"Warning: Path not found...\\n\");\n        m_needs_reroute_flag = true;\n        pathlen = 2;",
+  "    if (pathlen < 3)\n    {\n        // There is no valid path.\n        db_printf(\"Warning: Path not found...\\n\");\n        m_needs_reroute_flag = true;\n        pathlen = 2;",
+  mention=["FALLBACK-GUARD"])
+M("c03-path0-from-dst", "C03", "cola/libavoid/connector.cpp",
+  "    path[0] = m_src_vert->point;", "    path[0] = m_dst_vert->point;", mention=["ENDPOINTS"])
+
+# ---------------------------------------------------------------- C04
+M("c04-f-ignores-h", "C04", "cola/libavoid/makepath.cpp",
+  "            // The A* formula\n            node.f = node.g + node.h;\n\n#ifdef ASTAR_DEBUG", "            // The A* formula\n            node.f = node.g;\n\n#ifdef ASTAR_DEBUG",
+  mention=["ASTAR-STRUCTURE", "store f"])
+M("c04-g-drops-parent", "C04", "cola/libavoid/makepath.cpp",
+  "                    node.g = bestNode->g + cost(lineRef, edgeDist, bestNodeInf, \n                            node.inf, bestNode->prevNode);",
+  "                    node.g = cost(lineRef, edgeDist, bestNodeInf, \n                            node.inf, bestNode->prevNode);", mention=["ASTAR-STRUCTURE", "store g"])
+M("c04-cmp-reversed", "C04", "cola/libavoid/makepath.cpp",
+  "        return a->f > b->f;", "        return a->f < b->f;", mention=["NODE-ORDER"])
+M("c04-cmp-no-tolerance", "C04", "cola/libavoid/makepath.cpp",
+  "    if (fabs(a->f - b->f) > 0.0000001)", "    if (fabs(a->f - b->f) > 0.01)", mention=["NODE-ORDER"])
+M("c04-replace-always", "C04", "cola/libavoid/makepath.cpp",
+  "                    if (node.g < ati.g)\n                    {", "                    if (node.g <= ati.g + 1)\n                    {", mention=["ASTAR-STRUCTURE", "relaxation"])
+M("c04-cost-bend-free", "C04", "cola/libavoid/makepath.cpp",
+  "            else if (rad > 0)\n            {\n                // Only penalise as an extra segment if the two \n                // segments are not collinear.\n                result += segmt_penalty;",
+  "            else if (rad > 1)\n            {\n                // Only penalise as an extra segment if the two \n                // segments are not collinear.\n                result += segmt_penalty;",
+  mention=["COST-FORM"])
+M("c04-cost-hidden-term", "C04", "cola/libavoid/makepath.cpp",
+  "    double result = dist;\n    Polygon connRoute;", "    double result = dist + 0.001;\n    Polygon connRoute;", mention=["COST-FORM"])
+M("c04-euclid-manhattan", "C04", "cola/libavoid/geometry.cpp",
+  "double euclideanDist(const Point& a, const Point& b)\n{\n    double xdiff = a.x - b.x;\n    double ydiff = a.y - b.y;\n\n    return sqrt((xdiff * xdiff) + (ydiff * ydiff));",
+  "double euclideanDist(const Point& a, const Point& b)\n{\n    double xdiff = a.x - b.x;\n    double ydiff = a.y - b.y;\n\n    return sqrt((xdiff * xdiff) + (ydiff * xdiff));", mention=["EUCLID-FORM"])
+M("c04-edge-length-wrong", "C04", "cola/libavoid/graph.cpp",
+  "    m_dist = dist;", "    m_dist = dist * 0.999;", mention=["EDGE-LENGTH"])
